@@ -10,12 +10,35 @@ use oracle::decode::deinterleave;
 use oracle::layout::{self, region_map};
 use oracle::tables::{self, BYTE};
 
+/// seeded targets (beyond the 24 fixed ones): mostly random data area, but a few whole rows (26: columns) follow
+/// mask k exactly, so that candidate k has a handful of single-colour runs as long as the symbol is wide
+/// (N far above any small counter width) while staying in the race for the minimum
+pub const TARGET_LONG_ROW_RUNS: usize = 24;
+pub const TARGET_LONG_COLUMN_RUNS: usize = 25;
 pub const TARGET_COUNT: usize = 24;
 pub const TARGET_NAMES: [&str; TARGET_COUNT] = [
     "equals-mask-0", "equals-mask-1", "equals-mask-2", "equals-mask-3", "equals-mask-4", "equals-mask-5", "equals-mask-6", "equals-mask-7",
     "complement-of-mask-0", "complement-of-mask-1", "complement-of-mask-2", "complement-of-mask-3", "complement-of-mask-4", "complement-of-mask-5", "complement-of-mask-6", "complement-of-mask-7",
     "all-light", "all-dark", "finder-lookalike-rows", "finder-lookalike-columns", "row-stripes", "column-stripes", "2x2-blocks", "half-dark-half-light",
 ];
+
+/// seeded variant for the long-run targets; falls back to `target_bit` for the fixed ones
+pub fn target_bit_seeded(target: usize, seed: u64, k_override: Option<usize>, r: usize, c: usize, n: usize) -> bool {
+    if target < TARGET_COUNT {
+        return target_bit(target, r, c, n);
+    }
+    let k = k_override.unwrap_or((seed % 8) as usize);
+    let lines = 1 + (seed / 8 % 4) as usize;
+    let dark = seed / 32 % 2 == 1;
+    let line = if target == TARGET_LONG_ROW_RUNS { r } else { c };
+    // the chosen lines: hash of (seed, line) below a threshold that selects about `lines` of the n lines
+    let h = oracle::rng::mix(seed ^ 0x10c6, line as u64);
+    if (h % n as u64) < lines as u64 && k < 8 {
+        layout::mask_bit(k, r, c) ^ dark
+    } else {
+        oracle::rng::mix(seed, (r * 200 + c) as u64) & 1 == 1
+    }
+}
 
 /// wanted value (true = dark) of the placed, unmasked module at (row, column)
 pub fn target_bit(target: usize, r: usize, c: usize, n: usize) -> bool {
@@ -57,13 +80,17 @@ pub fn payload_for_data_codewords(v: usize, level: usize, data: &[u8]) -> Vec<u8
 
 /// Data codewords (in block order) such that the placed, unmasked data-codeword modules follow `target`.
 pub fn data_codewords_for_target(v: usize, level: usize, target: usize) -> Vec<u8> {
+    data_codewords_for_target_seeded(v, level, target, 0, None)
+}
+
+pub fn data_codewords_for_target_seeded(v: usize, level: usize, target: usize, seed: u64, k_override: Option<usize>) -> Vec<u8> {
     let map = region_map(v);
     let lay = tables::layout(v, level);
     let n = map.size;
     // interleaved stream the matrix should carry
     let mut stream = vec![0u8; lay.total];
     for (i, &(r, c)) in map.zigzag.iter().enumerate() {
-        if i < lay.total * 8 && target_bit(target, r, c, n) {
+        if i < lay.total * 8 && target_bit_seeded(target, seed, k_override, r, c, n) {
             stream[i / 8] |= 0x80 >> (i % 8);
         }
     }
@@ -72,8 +99,9 @@ pub fn data_codewords_for_target(v: usize, level: usize, target: usize) -> Vec<u
     blocks.into_iter().flat_map(|b| b.data).collect()
 }
 
-pub fn payload_for_target(v: usize, level: usize, target: usize) -> Vec<u8> {
-    payload_for_data_codewords(v, level, &data_codewords_for_target(v, level, target))
+/// `k_override`: for the seeded long-run targets, the mask the chosen lines follow (default: seed % 8)
+pub fn payload_for_target(v: usize, level: usize, target: usize, seed: u64, k_override: Option<usize>) -> Vec<u8> {
+    payload_for_data_codewords(v, level, &data_codewords_for_target_seeded(v, level, target, seed, k_override))
 }
 
 pub const CW_SHAPE_COUNT: usize = 8;
